@@ -6,12 +6,14 @@ import (
 	"encoding/json"
 	"fmt"
 	"math/big"
+	"sort"
 	"strconv"
 	"strings"
 	"time"
 
 	"github.com/iden3/go-merkletree-sql/v2"
 	"github.com/iden3/go-schema-processor/v2/merklize"
+	"github.com/iden3/go-schema-processor/v2/verifiable"
 	"github.com/piprate/json-gold/ld"
 )
 
@@ -389,6 +391,14 @@ func genC03(out *Out, r *Rng, tier string, n int, shard int) {
 		c.Prop = propOf(why)
 		out.Emit(c)
 	}
+	// credentials through W3CCredential.Merklize (after the documents: the cases above are the same as without these)
+	nc, nren, cmuts := 2+n/6, 3, 40
+	if tier == "thorough" {
+		nc, nren = 2+n/4, 5
+	}
+	for i := 0; i < nc; i++ {
+		emitC03Credential(out, r, nren, cmuts)
+	}
 }
 
 // entryBag: the entries of a merklized document with the array positions erased from their keys, as a multiset
@@ -488,4 +498,621 @@ func emitC03CallerTree(out *Out, r *Rng, doc []byte, hs HSpec, loader ld.Documen
 		}
 	}
 	out.Emit(Case{Op: "none", In: J{"doc": string(doc), "callerTree": true}, Impl: okJ("merklized"), Prop: propOf(why), Tags: []string{"caller-tree", "h:" + hs.Name}, NT: true})
+}
+
+// ---------- the credential-level entry point: W3CCredential.Merklize ----------
+//
+// A credential is a document too: merklizing it again gives the same root, the root does not depend on how the document
+// was written (keys reordered, white space, unordered arrays permuted, a caller-provided empty tree), and replacing the value
+// of any single field - of the subject, of the credential itself, of its status entry whatever kind that entry is of, of
+// the members typed as small closed structs - by a different one changes the root.
+// The status entry is an open object (W3CCredential.CredentialStatus is an interface{}): entries of the kinds the iden3 stack
+// issues have id / type / revocationNonce / statusIssuer, status-list style entries and issuer-specific ones carry other members.
+
+type c03Member struct {
+	Name string
+	Kind string // iri | str | int | bool | time | strs | node
+	Val  any    // string | RawNum | bool | []string | *c03Node
+}
+
+type c03Node struct {
+	ID      string // "" = a blank node
+	Type    string // "" = untyped
+	Members []c03Member
+}
+
+// what the abstract credential of cred.go does not carry: the status entry, the optional service members, the schema id
+type c03CredExtras struct {
+	CtxURL   string
+	Status   *c03Node
+	Refresh  *c03Node
+	Display  *c03Node
+	SchemaID string
+	Types    []string // every status type name the context defines
+}
+
+const c03StatusNS = "urn:ex:status#"
+
+var c03StatusTypes = []string{"SparseMerkleTreeProof", "Iden3ReverseSparseMerkleTreeProof", "Iden3commRevocationStatusV1.0", "Iden3OnchainSparseMerkleTreeProof2023",
+	"StatusList2021Entry", "BitstringStatusListEntry"}
+
+// member names status entries of other kinds are known to carry, with the kind of their values
+var c03StatusPool = []c03Member{{Name: "statusPurpose", Kind: "str"}, {Name: "statusListIndex", Kind: "int"}, {Name: "statusListCredential", Kind: "iri"},
+	{Name: "encodedList", Kind: "str"}, {Name: "statusSize", Kind: "int"}, {Name: "ttl", Kind: "int"}, {Name: "statusReference", Kind: "iri"},
+	{Name: "suspended", Kind: "bool"}, {Name: "validFrom", Kind: "time"}, {Name: "statusMessages", Kind: "strs"}, {Name: "registry", Kind: "node"}}
+
+func c03Int(r *Rng) int64 {
+	switch r.Intn(4) {
+	case 0:
+		return int64(r.Intn(10))
+	case 1:
+		return int64(r.U64() >> 11) // up to 2^53: every digit survives a generic JSON decode
+	default:
+		return int64(r.Intn(1000000))
+	}
+}
+
+func c03IntJSON(v int64, asString bool) any {
+	if asString {
+		return strconv.FormatInt(v, 10)
+	}
+	return RawNum(strconv.FormatInt(v, 10))
+}
+
+func c03Val(r *Rng, kind string, used map[string]bool, depth int) any {
+	switch kind {
+	case "iri":
+		return fmt.Sprintf("https://status.example/%s/%d", r.Pick([]string{"list", "credentials/status", "r", "v1/registry"}), r.Intn(100000))
+	case "int":
+		return c03IntJSON(c03Int(r), r.Chance(35))
+	case "bool":
+		return r.Bool()
+	case "time":
+		return time.Unix(int64(r.Intn(2000000000)), 0).UTC().Format(time.RFC3339Nano)
+	case "strs":
+		var xs []string
+		for i, n := 0, 2+r.Intn(3); i < n; i++ {
+			xs = append(xs, fmt.Sprintf("%s-%d", r.Pick([]string{"revoked", "suspended", "valid", "message"}), i))
+		}
+		return xs
+	case "node":
+		return c03RandNode(r, used, depth+1, false)
+	default:
+		return r.Pick([]string{"revocation", "suspension", "message", "H4sIAAAAAAAAA-3BMQEAAADCoPVPbQwfoAAAAAAAAAAAAAAAAAAAAIC3AYbSVKsAQAAA", "", "0", "a b"}) + fmt.Sprint(r.Intn(50))
+	}
+}
+
+// c03RandNode: a status entry (top = the entry itself; below it the statusIssuer entry and other nested nodes)
+func c03RandNode(r *Rng, used map[string]bool, depth int, statusLike bool) *c03Node {
+	n := &c03Node{}
+	if r.Chance(90) {
+		n.ID = fmt.Sprintf("https://status.example/%d#%d", r.Intn(1000), r.Intn(100000))
+	}
+	if r.Chance(93) {
+		n.Type = r.Pick(c03StatusTypes)
+		if r.Chance(20) {
+			n.Type = fmt.Sprintf("Ex%dStatus", r.Intn(4))
+		}
+	}
+	if statusLike {
+		if r.Chance(80) {
+			n.Members = append(n.Members, c03Member{Name: "revocationNonce", Kind: "int", Val: c03IntJSON(c03Int(r), r.Chance(10))})
+		}
+		if depth < 2 && r.Chance(30) {
+			n.Members = append(n.Members, c03Member{Name: "statusIssuer", Kind: "node", Val: c03RandNode(r, used, depth+1, true)})
+		}
+	}
+	// further members: none (the kinds the iden3 stack issues) ... several
+	k := 0
+	if r.Chance(65) {
+		k = 1 + r.Intn(4)
+	}
+	if depth > 0 && r.Bool() {
+		k = r.Intn(2)
+	}
+	for i := 0; i < k; i++ {
+		var m c03Member
+		if r.Chance(60) {
+			m = c03StatusPool[r.Intn(len(c03StatusPool))]
+		} else {
+			m = c03Member{Name: fmt.Sprintf("m%d", r.Intn(40)), Kind: r.Pick([]string{"iri", "str", "int", "bool", "time", "str", "strs"})}
+		}
+		if used[m.Name] || (m.Kind == "node" && depth >= 2) {
+			continue
+		}
+		used[m.Name] = true
+		m.Val = c03Val(r, m.Kind, used, depth)
+		n.Members = append(n.Members, m)
+	}
+	if n.ID == "" && n.Type == "" && len(n.Members) == 0 {
+		// a node nothing is said about is no statement the merklizer accepts ("BlankNode is not supported yet"): say its type
+		n.Type = r.Pick(c03StatusTypes)
+	}
+	return n
+}
+
+func newC03CredExtras(r *Rng) *c03CredExtras {
+	x := &c03CredExtras{CtxURL: fmt.Sprintf("https://ctx.example/status-%d.jsonld", r.Intn(1<<30))}
+	x.Types = append(append([]string{}, c03StatusTypes...), "Ex0Status", "Ex1Status", "Ex2Status", "Ex3Status")
+	used := map[string]bool{}
+	if r.Chance(95) {
+		x.Status = c03RandNode(r, used, 0, true)
+	}
+	if r.Chance(30) {
+		x.Refresh = &c03Node{ID: fmt.Sprintf("https://refresh.example/%d", r.Intn(999)), Type: "Iden3RefreshService2023"}
+	}
+	if r.Chance(30) {
+		x.Display = &c03Node{ID: fmt.Sprintf("ipfs://Qm%d", r.Intn(99999)), Type: "Iden3BasicDisplayMethodV1"}
+	}
+	return x
+}
+
+func (n *c03Node) walk(f func(*c03Node)) {
+	if n == nil {
+		return
+	}
+	f(n)
+	for _, m := range n.Members {
+		if sub, ok := m.Val.(*c03Node); ok {
+			sub.walk(f)
+		}
+	}
+}
+
+// context: the terms of the status entry and of the optional members (the credentials vocabulary itself is vcCtx)
+func (x *c03CredExtras) context() []byte {
+	terms := OObj{{"@version", RawNum("1.1")}, {"xsd", xsdNS},
+		{"refreshService", OObj{{"@id", "urn:ex:refreshService"}, {"@type", "@id"}}}, {"displayMethod", OObj{{"@id", "urn:ex:displayMethod"}, {"@type", "@id"}}},
+		{"Iden3RefreshService2023", "urn:ex:Iden3RefreshService2023"}, {"Iden3BasicDisplayMethodV1", "urn:ex:Iden3BasicDisplayMethodV1"},
+		{"statusIssuer", OObj{{"@id", c03StatusNS + "statusIssuer"}, {"@type", "@id"}}}}
+	for _, t := range x.Types {
+		if t != "SparseMerkleTreeProof" {
+			terms = append(terms, KV{t, c03StatusNS + t})
+		}
+	}
+	seen := map[string]bool{"revocationNonce": true, "statusIssuer": true}
+	x.Status.walk(func(n *c03Node) {
+		for _, m := range n.Members {
+			if seen[m.Name] {
+				continue
+			}
+			seen[m.Name] = true
+			id := c03StatusNS + m.Name
+			switch m.Kind {
+			case "iri", "node":
+				terms = append(terms, KV{m.Name, OObj{{"@id", id}, {"@type", "@id"}}})
+			case "int":
+				terms = append(terms, KV{m.Name, OObj{{"@id", id}, {"@type", "xsd:integer"}}})
+			case "bool":
+				terms = append(terms, KV{m.Name, OObj{{"@id", id}, {"@type", "xsd:boolean"}}})
+			case "time":
+				terms = append(terms, KV{m.Name, OObj{{"@id", id}, {"@type", "xsd:dateTime"}}})
+			default:
+				terms = append(terms, KV{m.Name, id})
+			}
+		}
+	})
+	bb := bytesBuf()
+	writeJSON(bb, OObj{{"@context", terms}}, nil, false)
+	return bb.Bytes()
+}
+
+// render: r != nil writes the members (and the unordered arrays) in a random order
+func (n *c03Node) render(r *Rng) OObj {
+	o := OObj{}
+	if n.ID != "" {
+		o = append(o, KV{"id", n.ID})
+	}
+	if n.Type != "" {
+		o = append(o, KV{"type", n.Type})
+	}
+	for _, m := range n.Members {
+		switch v := m.Val.(type) {
+		case *c03Node:
+			o = append(o, KV{m.Name, v.render(r)})
+		case []string:
+			arr := make([]any, len(v))
+			for i := range v {
+				arr[i] = v[i]
+			}
+			if r != nil {
+				for i, j := range r.Perm(len(v)) {
+					arr[i] = v[j]
+				}
+			}
+			o = append(o, KV{m.Name, arr})
+		default:
+			o = append(o, KV{m.Name, v})
+		}
+	}
+	if r != nil {
+		o = shuffleObj(o, r)
+	}
+	return o
+}
+
+// orderedJSON: decoded JSON as ordered objects (keys sorted, or in a random order), numbers as written
+func orderedJSON(v any, r *Rng) any {
+	switch x := v.(type) {
+	case map[string]any:
+		keys := make([]string, 0, len(x))
+		for k := range x {
+			keys = append(keys, k)
+		}
+		sort.Strings(keys)
+		o := make(OObj, 0, len(keys))
+		for _, k := range keys {
+			o = append(o, KV{k, orderedJSON(x[k], r)})
+		}
+		if r != nil {
+			o = shuffleObj(o, r)
+		}
+		return o
+	case []any:
+		out := make([]any, len(x))
+		for i := range x {
+			out[i] = orderedJSON(x[i], r)
+		}
+		return out
+	case json.Number:
+		return RawNum(x.String())
+	default:
+		return x
+	}
+}
+
+// c03CredDoc: the credential document (no proof). shuffle: another presentation of the same document - keys of every object in a
+// random order, the type arrays and the unordered arrays of the status entry permuted, white space
+func c03CredDoc(c *ACred, x *c03CredExtras, r *Rng, shuffle bool) ([]byte, error) {
+	dec := json.NewDecoder(bytes.NewReader(c.JSON()))
+	dec.UseNumber()
+	var m map[string]any
+	if err := dec.Decode(&m); err != nil {
+		return nil, err
+	}
+	var pr *Rng
+	if shuffle {
+		pr = r
+	}
+	ctxs, _ := m["@context"].([]any)
+	m["@context"] = append(append([]any{}, ctxs...), x.CtxURL)
+	if tt, ok := m["type"].([]any); ok && shuffle {
+		p := make([]any, len(tt))
+		for i, j := range r.Perm(len(tt)) {
+			p[i] = tt[j]
+		}
+		m["type"] = p
+	}
+	delete(m, "credentialStatus")
+	if x.SchemaID != "" {
+		if cs, ok := m["credentialSchema"].(map[string]any); ok {
+			cs["id"] = x.SchemaID
+		}
+	}
+	o, _ := orderedJSON(m, pr).(OObj)
+	for _, kv := range []struct {
+		k string
+		n *c03Node
+	}{{"credentialStatus", x.Status}, {"refreshService", x.Refresh}, {"displayMethod", x.Display}} {
+		if kv.n != nil {
+			o = append(o, KV{kv.k, kv.n.render(pr)})
+		}
+	}
+	if shuffle {
+		o = shuffleObj(o, r)
+	}
+	bb := bytesBuf()
+	writeJSON(bb, o, r, shuffle)
+	return bb.Bytes(), nil
+}
+
+// typed: the entry as the library's closed struct, when it has nothing the struct has no member for
+func (n *c03Node) typed() (*verifiable.CredentialStatus, bool) {
+	if n == nil || n.ID == "" || n.Type == "" {
+		return nil, false
+	}
+	st := &verifiable.CredentialStatus{ID: n.ID, Type: verifiable.CredentialStatusType(n.Type)}
+	nonce := false
+	for _, m := range n.Members {
+		switch m.Name {
+		case "revocationNonce":
+			raw, ok := m.Val.(RawNum)
+			if !ok {
+				return nil, false
+			}
+			v, err := strconv.ParseUint(string(raw), 10, 64)
+			if err != nil {
+				return nil, false
+			}
+			st.RevocationNonce, nonce = v, true
+		case "statusIssuer":
+			sub, ok := m.Val.(*c03Node).typed()
+			if !ok {
+				return nil, false
+			}
+			st.StatusIssuer = sub
+		default:
+			return nil, false
+		}
+	}
+	return st, nonce
+}
+
+// c03CredRoot: decode the document as a credential and merklize it through the credential's own method (twice: a second time on
+// the same object, which must give the root of the first). form 1 / 2: the status entry is handed over as the library's typed
+// struct (value / pointer) instead of the decoded object.
+func c03CredRoot(doc []byte, loader ld.DocumentLoader, ownTree bool, form int, st *c03Node, twice bool) (string, error) {
+	return guard(20*time.Second, func() (string, error) {
+		var vc verifiable.W3CCredential
+		if err := json.Unmarshal(doc, &vc); err != nil {
+			return "", fmt.Errorf("decode: %w", err)
+		}
+		if ts, ok := st.typed(); ok && form == 1 {
+			vc.CredentialStatus = *ts
+		} else if ok && form == 2 {
+			vc.CredentialStatus = ts
+		}
+		rootOnce := func() (string, error) {
+			opts := []merklize.MerklizeOption{merklize.WithDocumentLoader(loader)}
+			if ownTree {
+				opts = append(opts, merklize.WithMerkleTree(merklize.MerkleTreeSQLAdapter(mustTree())))
+			}
+			mz, err := vc.Merklize(context.Background(), opts...)
+			if err != nil {
+				return "", err
+			}
+			if mz == nil {
+				return "", errNilNil
+			}
+			return mz.Root().BigInt().String(), nil
+		}
+		r1, err := rootOnce()
+		if err != nil || !twice {
+			return r1, err
+		}
+		r2, err := rootOnce()
+		if err != nil {
+			return "", fmt.Errorf("the second merklization of the same credential object fails: %w", err)
+		}
+		if r1 != r2 {
+			return "", fmt.Errorf("the same credential object merklized twice gives two roots: %s, %s", trunc(r1, 24), trunc(r2, 24))
+		}
+		return r1, nil
+	})
+}
+
+type c03Leaf struct {
+	Name string
+	Mut  func(r *Rng) (undo func(), ok bool) // replaces the value by one that is different after canonicalisation
+}
+
+func c03OtherIRI(s string, r *Rng) string {
+	if n := len(s); n > 0 && s[n-1] >= '0' && s[n-1] <= '9' && r.Bool() {
+		return s[:n-1] + string('0'+(s[n-1]-'0'+1+byte(r.Intn(9)))%10)
+	}
+	return s + r.Pick([]string{"x", "/2", "-b", "0"})
+}
+
+// leaves: every field of the entry (its id, its type, every member; nested entries likewise)
+func (n *c03Node) leaves(path string, types []string, out *[]c03Leaf) {
+	if n == nil {
+		return
+	}
+	if n.ID != "" {
+		*out = append(*out, c03Leaf{path + ".id", func(r *Rng) (func(), bool) {
+			old := n.ID
+			n.ID = c03OtherIRI(old, r)
+			return func() { n.ID = old }, true
+		}})
+	}
+	if n.Type != "" && len(types) > 1 {
+		*out = append(*out, c03Leaf{path + ".type", func(r *Rng) (func(), bool) {
+			old := n.Type
+			for n.Type == old {
+				n.Type = r.Pick(types)
+			}
+			return func() { n.Type = old }, true
+		}})
+	}
+	for i := range n.Members {
+		m := &n.Members[i]
+		name := path + "." + m.Name
+		if sub, ok := m.Val.(*c03Node); ok {
+			sub.leaves(name, types, out)
+			continue
+		}
+		*out = append(*out, c03Leaf{name, func(r *Rng) (func(), bool) {
+			old := m.Val
+			undo := func() { m.Val = old }
+			switch m.Kind {
+			case "iri":
+				m.Val = c03OtherIRI(old.(string), r)
+			case "int":
+				s, asString := old.(string)
+				if raw, ok := old.(RawNum); ok {
+					s = string(raw)
+				}
+				v, err := strconv.ParseInt(s, 10, 64)
+				if err != nil {
+					return undo, false
+				}
+				nv := v + 1 + int64(r.Intn(1000))
+				if r.Bool() || nv >= 1<<53 {
+					if nv = c03Int(r); nv == v {
+						nv = v ^ 1
+					}
+				}
+				m.Val = c03IntJSON(nv, asString)
+			case "bool":
+				m.Val = !old.(bool)
+			case "time":
+				t, err := time.Parse(time.RFC3339Nano, old.(string))
+				if err != nil {
+					return undo, false
+				}
+				m.Val = t.Add(time.Duration(1+r.Intn(100000)) * time.Second).UTC().Format(time.RFC3339Nano)
+			case "strs":
+				xs := append([]string{}, old.([]string)...)
+				xs[r.Intn(len(xs))] += r.Pick([]string{"x", " ", "-2"}) // no sibling ends like that: the set still has as many members
+				m.Val = xs
+			default:
+				l := &ALit{DT: xsdNS + "string", Kind: "str", Canon: old.(string), JSON: old.(string)}
+				if _, ok := mutateLit(l, r); !ok {
+					return undo, false
+				}
+				m.Val = l.Canon
+			}
+			return undo, true
+		}})
+	}
+}
+
+// credLeaves: the fields of the abstract credential itself. (The credential's own id is the subject of the top-level
+// statements, not the value of a field - see C06 - and is left alone.)
+func c03CredLeaves(c *ACred, x *c03CredExtras) []c03Leaf {
+	var out []c03Leaf
+	for i := range c.Fields {
+		f := &c.Fields[i]
+		if f.Absent {
+			continue
+		}
+		out = append(out, c03Leaf{"credentialSubject." + f.Name, func(r *Rng) (func(), bool) {
+			old := *f
+			l := &ALit{DT: xsdNS + f.DT, Kind: f.Kind, Canon: f.Canon, JSON: f.JSON}
+			if _, ok := mutateLit(l, r); !ok {
+				return func() {}, false
+			}
+			f.JSON, f.Canon, f.Kind = l.JSON, l.Canon, l.Kind
+			return func() { *f = old }, true
+		}})
+	}
+	if c.SubjectDID != "" {
+		out = append(out, c03Leaf{"credentialSubject.id", func(r *Rng) (func(), bool) {
+			old := c.SubjectDID
+			c.SubjectDID = randDID(r)
+			return func() { c.SubjectDID = old }, c.SubjectDID != old
+		}})
+	}
+	out = append(out, c03Leaf{"issuer", func(r *Rng) (func(), bool) {
+		old := c.Issuer
+		c.Issuer = randDID(r)
+		return func() { c.Issuer = old }, c.Issuer != old
+	}})
+	shift := func(t time.Time, r *Rng) time.Time {
+		d := time.Duration(1+r.Intn(100000)) * time.Second
+		if r.Chance(20) {
+			d = time.Second
+		}
+		if t.Year() >= 9999 {
+			d = -d
+		}
+		return t.Add(d)
+	}
+	if c.Issuance != nil {
+		out = append(out, c03Leaf{"issuanceDate", func(r *Rng) (func(), bool) {
+			old := c.Issuance
+			t := shift(*old, r)
+			c.Issuance = &t
+			return func() { c.Issuance = old }, true
+		}})
+	}
+	if c.Expiration != nil {
+		out = append(out, c03Leaf{"expirationDate", func(r *Rng) (func(), bool) {
+			old := c.Expiration
+			t := shift(*old, r)
+			c.Expiration = &t
+			return func() { c.Expiration = old }, true
+		}})
+	}
+	out = append(out, c03Leaf{"credentialSchema.id", func(r *Rng) (func(), bool) {
+		old := x.SchemaID
+		x.SchemaID = c03OtherIRI("https://schema.example/"+c.TypeName+".json", r)
+		return func() { x.SchemaID = old }, true
+	}})
+	x.Status.leaves("credentialStatus", x.Types, &out)
+	x.Refresh.leaves("refreshService", nil, &out)
+	x.Display.leaves("displayMethod", nil, &out)
+	return out
+}
+
+func emitC03Credential(out *Out, r *Rng, nren, muts int) {
+	c := randCred(r, r.Chance(25))
+	x := newC03CredExtras(r)
+	loader := c.loader()
+	ctxDoc := x.context()
+	loader.docs[x.CtxURL] = ctxDoc
+	extra, nodes := 0, 0
+	x.Status.walk(func(n *c03Node) {
+		nodes++
+		for _, m := range n.Members {
+			if m.Name != "revocationNonce" && m.Name != "statusIssuer" {
+				extra++
+			}
+		}
+	})
+	extraCap := extra
+	if extraCap > 4 {
+		extraCap = 4
+	}
+	_, typedOK := x.Status.typed()
+	tags := []string{"shape:credential", fmt.Sprintf("status-nodes:%d", nodes), fmt.Sprintf("status-other-members:%d", extraCap), fmt.Sprintf("status-fits-typed-struct:%v", typedOK),
+		fmt.Sprintf("serialized:%v", c.SerAttr != "")}
+	doc0, err := c03CredDoc(c, x, r, false)
+	cs := Case{Op: "none", In: J{"credential": string(doc0), "statusContext": string(ctxDoc)}, Tags: tags, NT: true}
+	if err != nil {
+		cs.Prop = &PropRes{OK: false, Why: "harness: the generated credential does not parse: " + err.Error()}
+		out.Emit(cs)
+		return
+	}
+	var why []string
+	root0, err := c03CredRoot(doc0, loader, false, 0, x.Status, true)
+	if err != nil {
+		cs.Impl = errJ(err)
+		cs.Prop = &PropRes{OK: false, Why: fmt.Sprintf("well-formed credential rejected: %v; credential=%s", err, trunc(string(doc0), 700))}
+		out.Emit(cs)
+		return
+	}
+	// the same credential written differently / handed over differently / merklized into a caller-provided empty tree
+	for j := 0; j < nren; j++ {
+		doc, err := c03CredDoc(c, x, r, j > 0)
+		if err != nil {
+			continue
+		}
+		form, own := 0, j%2 == 0
+		if typedOK {
+			form = r.Intn(3)
+		}
+		rt, err := c03CredRoot(doc, loader, own, form, x.Status, j == 0)
+		if err != nil {
+			why = append(why, fmt.Sprintf("re-presentation of the credential rejected (callerTree=%v, statusForm=%d): %v; credential=%s", own, form, err, trunc(string(doc), 600)))
+		} else if rt != root0 {
+			why = append(why, fmt.Sprintf("root of the credential changed under a meaning-preserving re-presentation (callerTree=%v, statusForm=%d): %s vs %s; credential=%s", own, form, trunc(rt, 24), trunc(root0, 24), trunc(string(doc), 600)))
+		}
+	}
+	// sensitivity: one field at a time
+	leaves := c03CredLeaves(c, x)
+	nm := 0
+	for _, li := range r.Perm(len(leaves)) {
+		if nm >= muts {
+			break
+		}
+		undo, ok := leaves[li].Mut(r)
+		if ok {
+			nm++
+			doc, err := c03CredDoc(c, x, r, r.Chance(30))
+			if err == nil {
+				rt, err := c03CredRoot(doc, loader, r.Chance(30), 0, x.Status, false)
+				if err != nil {
+					why = append(why, fmt.Sprintf("credential rejected after replacing the value of %s: %v; credential=%s", leaves[li].Name, err, trunc(string(doc), 600)))
+				} else if rt == root0 {
+					why = append(why, fmt.Sprintf("root of the credential unchanged after replacing the value of %s by a different one; credential=%s; base=%s", leaves[li].Name, trunc(string(doc), 900), trunc(string(doc0), 900)))
+				}
+			}
+		}
+		undo()
+	}
+	cs.Impl = okJ(root0)
+	cs.Tags = append(cs.Tags, fmt.Sprintf("renderings:%d", nren), fmt.Sprintf("mutations:%d", nm))
+	cs.Prop = propOf(why)
+	out.Emit(cs)
 }
